@@ -87,6 +87,7 @@ const maxDepth = 3
 type entry struct {
 	Path string `json:"path"` // relative to the root, '/'-separated
 	Dir  bool   `json:"dir"`
+	Link bool   `json:"dangling_link,omitempty"` // a symbolic link whose target does not exist (OS backend only)
 }
 
 type tree struct {
@@ -107,6 +108,9 @@ func (t tree) String() string {
 		if e.Dir {
 			sb.WriteByte('/')
 		}
+		if e.Link {
+			sb.WriteString("@")
+		}
 	}
 	return "{" + sb.String() + "}"
 }
@@ -122,7 +126,7 @@ func gen(prefix string, names, all []string, budget, depth int) [][]entry {
 	var out [][]entry
 	out = append(out, gen(prefix, rest, all, budget, depth)...) // name absent
 	for _, r := range gen(prefix, rest, all, budget-1, depth) { // a file
-		out = append(out, append([]entry{{p, false}}, r...))
+		out = append(out, append([]entry{{Path: p}}, r...))
 	}
 	subs := [][]entry{nil} // a directory and its content
 	if depth > 1 {
@@ -131,7 +135,7 @@ func gen(prefix string, names, all []string, budget, depth int) [][]entry {
 	for _, s := range subs {
 		for _, r := range gen(prefix, rest, all, budget-1-len(s), depth) {
 			e := make([]entry, 0, 1+len(s)+len(r))
-			e = append(e, entry{p, true})
+			e = append(e, entry{Path: p, Dir: true})
 			e = append(e, s...)
 			e = append(e, r...)
 			out = append(out, e)
@@ -450,7 +454,14 @@ func (w *world) build(t tree) error {
 		return err
 	}
 	for _, e := range t.Entries {
-		if err := mk(filepath.Join(root, filepath.FromSlash(e.Path)), e.Dir); err != nil {
+		p := filepath.Join(root, filepath.FromSlash(e.Path))
+		if e.Link {
+			if err := os.Symlink(filepath.Join(w.base, "n0-such-target"), p); err != nil {
+				return err
+			}
+			continue
+		}
+		if err := mk(p, e.Dir); err != nil {
 			return err
 		}
 	}
@@ -917,11 +928,12 @@ func sourceVerdicts(op opID, t tree, c classified, snap map[string]bool) []verdi
 // the enumeration
 
 type group struct {
-	name  string
-	mode  string
-	trees []tree
-	lists [][]string
-	psets []*pset // valid mode only
+	name   string
+	osOnly bool // the trees contain symbolic links
+	mode   string
+	trees  []tree
+	lists  [][]string
+	psets  []*pset // valid mode only
 }
 
 type job struct {
@@ -1259,6 +1271,48 @@ func TestC08(t *testing.T) {
 		groups = append(groups, wide)
 		specs = append(specs, groupSpec{Name: wide.name, Mode: "valid", Names: []string{"e000..e299", "x<k> every 37th"}, MinEntries: 300, MaxEntries: 301, MaxPatterns: 2, Trees: len(wide.trees), Lists: len(wide.lists)})
 	}
+	// two more patterns, each paired with every pattern of the alphabet, on the trees of at most 3 entries: an alternation whose
+	// first branch is a prefix of the second (the leftmost match is not the longest), and a pattern with a blank in it
+	// (matches no name; as text, the list {"x y"} reads like the list {"x", "y"})
+	{
+		extra := []string{"x|xy", "x y"}
+		eg := group{name: "valid/entries<=3/prefix-alternation-and-blank", mode: "valid", trees: trees(allNames, 0, 3)}
+		for i, e := range extra {
+			eg.lists = append(eg.lists, []string{e})
+			for _, v := range validPatterns {
+				eg.lists = append(eg.lists, []string{e, v}, []string{v, e})
+			}
+			for _, e2 := range extra[i+1:] {
+				eg.lists = append(eg.lists, []string{e, e2})
+			}
+		}
+		eg.lists = append(eg.lists, []string{"x", "y"}, []string{"x", "xy"}) // after the lists they could be mistaken for
+		for _, l := range eg.lists {
+			key := strings.Join(l, "\x00")
+			if psetCache[key] == nil {
+				psetCache[key] = newPset(l)
+			}
+			eg.psets = append(eg.psets, psetCache[key])
+		}
+		groups = append(groups, eg)
+		specs = append(specs, groupSpec{Name: eg.name, Mode: "valid", Names: allNames, MaxEntries: 3, MaxPatterns: 2, Trees: len(eg.trees), Lists: len(eg.lists)})
+		// an excluded entry that cannot be stat'ed: a dangling symbolic link named x among ordinary entries (OS backend)
+		lg := group{name: "valid/excluded-dangling-link", mode: "valid", osOnly: true, lists: [][]string{{"x"}, {"x", "y"}, {"[xy]"}}}
+		lg.trees = []tree{
+			{Entries: []entry{{Path: "x", Link: true}, {Path: "z"}}},
+			{Entries: []entry{{Path: "a0"}, {Path: "x", Link: true}, {Path: "z", Dir: true}, {Path: "z/z"}}},
+			{Entries: []entry{{Path: "z", Dir: true}, {Path: "z/a0"}, {Path: "z/x", Link: true}, {Path: "z/z"}, {Path: "zz"}}},
+		}
+		for _, l := range lg.lists {
+			key := strings.Join(l, "\x00")
+			if psetCache[key] == nil {
+				psetCache[key] = newPset(l)
+			}
+			lg.psets = append(lg.psets, psetCache[key])
+		}
+		groups = append(groups, lg)
+		specs = append(specs, groupSpec{Name: lg.name, Mode: "valid", Names: []string{"a0", "x@ (dangling link)", "z", "zz"}, MaxEntries: 5, MaxPatterns: 2, Trees: len(lg.trees), Lists: len(lg.lists)})
+	}
 	exhaustive := true
 	if n, _ := strconv.Atoi(os.Getenv("VERIF_C08_MAXTREES")); n > 0 { // development aid (profiling): never set by a registered command
 		exhaustive = false
@@ -1272,6 +1326,9 @@ func TestC08(t *testing.T) {
 	const chunk = 8
 	for gi, g := range groups {
 		for b := range backends {
+			if g.osOnly && backends[b] != "os" {
+				continue
+			}
 			if only := os.Getenv("VERIF_C08_BACKEND"); only != "" && only != backends[b] { // development aid (profiling)
 				exhaustive = false
 				continue
